@@ -618,6 +618,17 @@ class Enumerator:
     def _coll_truth(self, prim, st):
         """Truth of a collection symbol: non-empty once something was
         appended on this path, else that of its untouched literal."""
+        if isinstance(prim, ast.BinOp) and isinstance(prim.op, ast.Add):
+            # concatenation of collections
+            ta = self._coll_truth(prim.left, st)
+            tb = self._coll_truth(prim.right, st)
+            if ta is True or tb is True:
+                return True
+            if ta is False and tb is False:
+                return False
+            return None
+        if isinstance(prim, (ast.List, ast.Tuple)):
+            return const_truth(prim)
         if not (isinstance(prim, ast.Name) and prim.id.startswith('SYM_m')):
             return None
         grown = False
